@@ -36,6 +36,13 @@ class Tracker(Monitor):
         w.on_hook('send_state_event', self.on_state)
         w.on_hook('force_process_state', self.on_forced)
         w.on_hook('instance_state', self.on_instance_state)
+        self.stop_epoch = {}       # (nick, inc, app) -> current stop plan
+        self.last_plan = {}        # (nick, inc, 'start'|'stop') -> time of the last plan created
+        w.on_hook('stopper_stop_applications', lambda inst, *a, **k: self.bump_stop(inst, None, 'all'))
+        w.on_hook('stopper_stop_application',
+                  lambda inst, application, *a, **k: self.bump_stop(inst, application.application_name, 'app'))
+        w.on_hook('stopper_stop_process',
+                  lambda inst, process, *a, **k: self.bump_stop(inst, process.application_name, 'process'))
         self.epoch = {}            # (nick, inc, app) -> plan counter (entry points of the Starter)
         w.on_hook('starter_start_applications', lambda inst, *a, **k: self.bump(inst, None))
         w.on_hook('starter_start_application',
@@ -57,12 +64,41 @@ class Tracker(Monitor):
                     if req['sender'] == inst.nick and req['inc'] == inst.inc and not req['resolved']:
                         self.resolve(req, 'sender-aborted')
 
+    def bump_stop(self, inst, app_name, kind):
+        """ A new stop plan begins at this instance: application-level ('app' / 'all') or process-level. """
+        apps = [app_name] if app_name else list(self.run.model)
+        w = self.w
+        for app in apps:
+            key = (inst.nick, inst.inc, app)
+            old = self.stop_epoch.get(key)
+            number = (old['n'] + 1) if old else 1
+            running = {}
+            for (nick, ns), st in self.truth.items():
+                if ns.split(':')[0] == app and (st in RUN_CODES or st == 40) and w.instances[nick].alive:
+                    running.setdefault(ns, set()).add(nick)
+            if kind == 'process' and old and not old.get('closed'):
+                # a process-level stop joins the plan in progress, which is no longer a pure application stop
+                old['pure'] = False
+                continue
+            # a plan requested while the previous one of the same application is still in progress is queued behind
+            # it: the requests that follow cannot be attributed to one of them, so the clauses are not evaluated
+            overlapping = any(r['sender'] == inst.nick and r['inc'] == inst.inc and
+                              r['namespec'].split(':')[0] == app for r in self.open_stops)
+            self.stop_epoch[key] = {'n': number, 'kind': kind, 'pure': kind != 'process' and not overlapping,
+                                    'running': running, 't': w.now, 'step': w.steps}
+        self.last_plan[(inst.nick, inst.inc, 'stop')] = w.now
+        self.count('stop_plans')
+
+    def stop_epoch_of(self, nick, inc, app):
+        return self.stop_epoch.get((nick, inc, app))
+
     def bump(self, inst, app_name):
         """ A new start plan begins for the application(s) at this instance. """
         apps = [app_name] if app_name else list(self.run.model)
         for app in apps:
             key = (inst.nick, inst.inc, app)
             self.epoch[key] = self.epoch.get(key, 0) + 1
+        self.last_plan[(inst.nick, inst.inc, 'start')] = self.w.now
         self.count('start_plans')
 
     def epoch_of(self, inst_nick, inc, app):
@@ -97,7 +133,8 @@ class Tracker(Monitor):
         req = {'kind': 'stop', 'sender': inst.nick, 'inc': inst.inc, 'target': identifier,
                'target_nick': w.by_identifier.get(identifier), 'namespec': namespec, 't': w.now, 'step': w.steps,
                'resolved': None, 'delivered': None, 'sender_state': self.state_of(inst),
-               'visit': self.visit.get((inst.nick, inst.inc), 0)}
+               'visit': self.visit.get((inst.nick, inst.inc), 0),
+               'plan': self.stop_epoch_of(inst.nick, inst.inc, namespec.split(':')[0])}
         for cb in self.listeners_stop:
             cb(inst, req)
         self.stops.append(req)
@@ -106,7 +143,7 @@ class Tracker(Monitor):
 
     def on_forced(self, inst, process, identifier, event_time, forced_state, reason):
         rec = {'sender': inst.nick, 'inc': inst.inc, 'namespec': process.namespec, 'target': identifier,
-               'state': int(forced_state), 'reason': reason, 't': self.w.now,
+               'state': int(forced_state), 'reason': reason, 't': self.w.now, 'event_time': event_time,
                'visit': self.visit.get((inst.nick, inst.inc), 0), 'sender_state': self.state_of(inst),
                'epoch': self.epoch_of(inst.nick, inst.inc, process.application_name)}
         for cb in self.listeners_forced:
@@ -609,4 +646,376 @@ class AgreementMonitor(Monitor):
                                      f'{sorted(w.by_identifier[i] for i in p["identifiers"])} while {other} reports '
                                      f'{q["statename"]} on {sorted(w.by_identifier[i] for i in q["identifiers"])} '
                                      f'at quiescence (vt={vt(w)})', case=run.describe())
+        return self.violations
+
+
+# ---------------------------------------------------------------------------------------------------
+
+class StopSequenceMonitor(Monitor):
+    """ C09: stop sequences (application-level stop plans), stop targets, orderly restart / shutdown. """
+
+    def __init__(self, tracker):
+        Monitor.__init__(self)
+        self.tracker = tracker
+
+    def attach(self, run):
+        Monitor.attach(self, run)
+        self.tracker.listeners_stop.append(self.on_stop)
+        run.world.listeners.append(self.on_event)
+        self.orders = {}        # (target nick, target inc) -> [(vt, method, src)]
+        self.reroutes = []
+        self.final_states = {}  # (nick, inc) -> last published state
+        self.undelivered = {}   # (nick, inc) -> {peer nick: messages dropped when the instance stopped}
+        self.stopping_since = {}
+        self.stopped_at = {}
+        run.world.on_hook('send_state_event', self.on_state)
+        self.closing = None
+
+    def stop_seq(self, namespec):
+        app, prog = self.run.prog_of(namespec)
+        return app.get('stop_sequence_eff', 0), prog.get('stop_sequence_eff', 0)
+
+    def on_state(self, inst, payload):
+        self.final_states[(inst.nick, inst.inc)] = payload['fsm_statename']
+
+    def still_active(self, namespec, nicks, since=0.0):
+        """ Instances (live) where the process is truly running or stopping, and has been so without interruption
+        since the plan was built (a process stopped by the plan and started again by somebody else is done). """
+        tr, w = self.tracker, self.run.world
+        return [n for n in nicks if w.instances[n].alive and
+                tr.truth.get((n, namespec)) in (10, 20, 30, 40) and self.stopped_at.get((n, namespec), -1.0) < since]
+
+    def given_up(self, sender, inc, namespec, since):
+        """ The stop of that process has been given up on timeout (forced STOPPED published), by this plan or by
+        an earlier one since the process entered STOPPING. """
+        stopping_since = min([t for (n, ns), t in self.stopping_since.items() if ns == namespec] or [since])
+        return any(f['namespec'] == namespec and f['t'] >= min(since, stopping_since) and f['state'] == 0
+                   for f in self.tracker.forced)
+
+    def on_stop(self, inst, req):
+        run, tr = self.run, self.tracker
+        w = run.world
+        namespec = req['namespec']
+        app_name = namespec.split(':')[0]
+        app_seq, seq = self.stop_seq(namespec)
+        plan = req['plan']
+        self.count('stop_emissions')
+        where = f"{req['sender']} -> {req['target_nick']} for {namespec} at vt={vt(w)}"
+        # 3. the target is an instance where the requester sees the process running
+        try:
+            info = peek(w, inst.nick, 'supvisors.get_process_info', namespec)[0]
+            self.count('target_checks')
+            if req['target'] not in info['identifiers']:
+                self.violate('C09/stop-target-not-running', f'stop request {where}: the requester sees the process '
+                             f"{info['statename']} on {info['identifiers']}", case=run.describe())
+        except Fault:
+            pass
+        if not plan or not plan['pure']:
+            return
+        self.count('sequenced_stop_emissions')
+        # 1. no process of the same application with a higher stop_sequence is still running or stopping
+        for other, nicks in plan['running'].items():
+            if other == namespec or other.split(':')[0] != app_name or other not in run.procs:
+                continue
+            oseq = self.stop_seq(other)[1]
+            if oseq > seq:
+                self.count('order_comparisons')
+                active = self.still_active(other, nicks, plan['t'])
+                if active and not self.given_up(req['sender'], req['inc'], other, plan['t']):
+                    # the requester may have lost the host of that process: then it is not its concern any more
+                    lost = all(tr.sender_state.get((req['sender'], req['inc'])) and
+                               self.sees(inst, n) != 'RUNNING' for n in active)
+                    if not lost:
+                        self.violate('C09/process-order', f'stop request {where} (stop_sequence {seq}) while '
+                                     f'{other} (stop_sequence {oseq}) is still {self.states(other, active)}',
+                                     case=run.describe())
+            elif oseq == seq and other != namespec:
+                # 2. processes sharing a stop_sequence are asked together
+                req.setdefault('peers', []).append(other)
+        # application level (restart / shutdown): applications with a higher stop_sequence are done
+        if plan['kind'] == 'all':
+            for (nick, inc, oapp), oplan in list(tr.stop_epoch.items()):
+                if nick != req['sender'] or inc != req['inc'] or oapp == app_name or oplan['t'] != plan['t']:
+                    continue
+                oapp_seq = run.model[oapp].get('stop_sequence_eff', 0)
+                if oapp_seq > app_seq:
+                    self.count('application_order_comparisons')
+                    for other, nicks in oplan['running'].items():
+                        if other not in run.procs:
+                            continue
+                        active = self.still_active(other, nicks, plan['t'])
+                        if active and not self.given_up(req['sender'], req['inc'], other, plan['t']) and \
+                                any(self.sees(inst, n) == 'RUNNING' for n in active):
+                            self.violate('C09/application-order', f'stop request {where} (application stop_sequence '
+                                         f'{app_seq}) while {other} of application {oapp} (stop_sequence {oapp_seq}) '
+                                         f'is still {self.states(other, active)}', case=run.describe())
+
+    def sees(self, inst, nick):
+        w = self.run.world
+        try:
+            return peek(w, inst.nick, 'supvisors.get_instance_info', ident(w, nick))[0]['statename']
+        except Fault:
+            return None
+
+    def states(self, namespec, nicks):
+        return {n: self.tracker.truth.get((n, namespec)) for n in nicks}
+
+    def on_event(self, ev):
+        if ev['k'] == 'stopping':
+            # what the proxies of a stopping instance still had to deliver is dropped with them
+            inst = self.run.world.instances.get(ev['inst'])
+            if inst is not None:
+                pending = {}
+                for identifier, proxy in inst.supvisors.rpc_handler.proxy_server.proxies.items():
+                    if proxy.fifo:
+                        pending[self.run.world.by_identifier.get(identifier)] = len(proxy.fifo)
+                self.undelivered[(ev['inst'], ev['inc'])] = pending
+        if ev['k'] == 'truth':
+            key = (ev['inst'], ev['namespec'])
+            if ev['state'] == 40:
+                self.stopping_since.setdefault(key, ev['t'])
+            else:
+                self.stopping_since.pop(key, None)
+            if ev['state'] in (0, 100, 200, 1000):
+                self.stopped_at[key] = ev['t']
+        if ev['k'] == 'rpc_call':
+            method = ev['method']
+            if method in ('supervisor.restart', 'supervisor.shutdown'):
+                w = self.run.world
+                tinst = w.instances.get(ev['dst'])
+                key = (ev['dst'], tinst.inc if tinst else 0)
+                self.orders.setdefault(key, []).append((vt(w), method, ev['src']))
+                # only after the Master has finished stopping everything (or given up)
+                master = self.run.master_at_closing
+                if master:
+                    minst = w.instances.get(master)
+                    if minst and minst.alive:
+                        pending = [r for r in self.tracker.open_stops
+                                   if r['sender'] == master and r['inc'] == minst.inc and r['plan']
+                                   and r['plan']['kind'] == 'all' and not r.get('target_crashed')]
+                        self.count('order_timing_checks')
+                        if pending:
+                            self.violate('C09/order-before-stops-ended', f"{method} delivered to {ev['dst']} at "
+                                         f"vt={vt(w)} while the Master {master} still has stop jobs in progress "
+                                         f"({[r['namespec'] for r in pending]})", case=self.run.describe())
+            elif method in ('supvisors.restart', 'supvisors.shutdown') and ev['src'] != 'user':
+                self.reroutes.append((ev['src'], ev['dst'], method))
+
+    def finish(self, run):
+        w = run.world
+        tr = self.tracker
+        # 2. processes sharing a stop_sequence were asked in the same dispatch
+        by_plan = {}
+        for req in tr.stops:
+            plan = req['plan']
+            if plan and plan['pure']:
+                by_plan.setdefault((req['sender'], req['inc'], req['namespec'].split(':')[0], plan['n'], plan['t']),
+                                   []).append(req)
+        for key, reqs in by_plan.items():
+            steps = {}
+            for req in reqs:
+                steps.setdefault(self.stop_seq(req['namespec'])[1], set()).add(req['step'])
+            for seq, values in steps.items():
+                self.count('same_sequence_groups')
+                if len(values) > 1:
+                    names = sorted({r['namespec'] for r in reqs if self.stop_seq(r['namespec'])[1] == seq})
+                    self.violate('C09/same-sequence-not-together', f'{key[0]} asked the processes {names} sharing '
+                                 f'stop_sequence {seq} to stop in {len(values)} different dispatches',
+                                 case=run.describe())
+        closing = run.closing
+        if closing and closing.get('accepted'):
+            self.count('closing_runs')
+            kind = closing['kind']
+            # every instance that was alive and in the Master group received exactly one order
+            for nick in closing['members']:
+                inc = closing['incs'][nick]
+                got = [o for o in self.orders.get((nick, inc), []) if o[1] == 'supervisor.' + kind]
+                inst_crashed = nick in closing.get('crashed', [])
+                if inst_crashed:
+                    continue
+                self.count('exactly_once_checks')
+                mech = ''
+                master_key = (closing['master'], closing['incs'][closing['master']])
+                if self.undelivered.get(master_key, {}).get(nick):
+                    # the Master stopped its own Supervisor while publications to that instance were still queued
+                    mech = ':master-left-before-its-publications-were-delivered'
+                if len(got) != 1:
+                    self.violate(f'C09/order-count:{len(got) if len(got) < 2 else "many"}{mech}',
+                                 f'{nick} received {len(got)} supervisor.{kind} order(s) after supvisors.{kind} was '
+                                 f"requested on {closing['on']} (Master {closing['master']}): {got}",
+                                 case=run.describe())
+                if self.final_states.get((nick, inc)) != 'FINAL':
+                    self.violate(f'C09/not-final{mech}', f'{nick} last published {self.final_states.get((nick, inc))} '
+                                 f'instead of FINAL after supvisors.{kind}', case=run.describe())
+            if closing['on'] != closing['master']:
+                routed = [r for r in self.reroutes if r[0] == closing['on'] and r[2] == 'supvisors.' + kind]
+                self.count('reroute_checks')
+                if len(routed) != 1 or routed[0][1] != closing['master']:
+                    self.violate('C09/reroute', f"supvisors.{kind} requested on {closing['on']}: re-routed calls "
+                                 f"{routed}, expected exactly one to the Master {closing['master']}",
+                                 case=run.describe())
+        return self.violations
+
+
+# ---------------------------------------------------------------------------------------------------
+
+class JobTerminationMonitor(Monitor):
+    """ C10: start / stop jobs are reported in progress for a bounded number of ticks after the last request;
+    a job given up leaves the process FATAL (start) or STOPPED (stop), with a reason, on every instance. """
+
+    def __init__(self, tracker):
+        Monitor.__init__(self)
+        self.tracker = tracker
+
+    def attach(self, run):
+        Monitor.attach(self, run)
+        run.on_tick.append(self.on_tick)
+        run.world.listeners.append(self.on_event)
+        self.tracker.listeners_forced.append(self.on_forced)
+        self.flag_since = {}     # (nick, inc, kind) -> vt since the flag is continuously reported
+        self.reported = set()
+        self.pending_forced = []
+        progs = [p for a in run.model.values() for p in a['programs'].values()]
+        retries = max(p.get('startretries', 1) for p in progs) + 1
+        start_ticks = 2 + -(-max(p.get('startsecs', 1) for p in progs) // 5) + 1
+        stop_ticks = 2 + -(-max(p.get('stopwaitsecs', 1) for p in progs) // 5) + 1
+        eff = effective_options(run.scenario['options'])
+        # a stop level made of processes that are already STOPPING emits no request: three levels are allowed for
+        self.bound = {'start': start_ticks * retries + eff['inactivity_ticks'] + 6,
+                      'stop': 3 * stop_ticks + eff['inactivity_ticks'] + 6}
+        self.last_truth = {}
+        self.has_wait_exit = any(p.get('wait_exit') for p in progs)
+
+    def last_request(self, inst, kind):
+        pool = self.tracker.requests if kind == 'start' else self.tracker.stops
+        # a new plan (user request, conciliation round, failure strategy) counts as a request even when every
+        # process of it is already STOPPING and nothing has to be sent
+        last = self.tracker.last_plan.get((inst.nick, inst.inc, kind))
+        for req in reversed(pool):
+            if req['sender'] == inst.nick and req['inc'] == inst.inc:
+                return max(req['t'], last or req['t'])
+        return last
+
+    def on_tick(self, vws):
+        w = self.run.world
+        for inst in w.live():
+            view = vws.get(inst.nick)
+            if view is None:
+                continue
+            for kind, key in (('start', 'starting_jobs'), ('stop', 'stopping_jobs')):
+                flagged = inst.identifier in view[key]
+                fkey = (inst.nick, inst.inc, kind)
+                if not flagged:
+                    self.flag_since.pop(fkey, None)
+                    continue
+                since = self.flag_since.setdefault(fkey, w.now)
+                last = self.last_request(inst, kind)
+                ref = max(since, last or since)
+                self.count('job_flag_observations')
+                ticks = (w.now - ref) / TICK
+                self.counters['max_ticks_in_progress'] = max(self.counters.get('max_ticks_in_progress', 0), int(ticks))
+                if ticks > self.bound[kind] and not (kind == 'start' and self.waiting_exit(inst)):
+                    mech = self.lost_exit(inst) if kind == 'start' else ''
+                    self.reported.add((inst.nick, inst.inc))
+                    self.violate(f'C10/{kind}-job-not-ended{mech}', f'{inst.nick} reports {key} for {ticks:.0f} ticks after '
+                                 f'its last {kind} request (bound {self.bound[kind]}): open requests '
+                                 f'{[(r["namespec"], r["target_nick"], r["resolved"]) for r in self.tracker.outstanding(inst.nick, inst.inc, kind)]}',
+                                 case=self.run.describe())
+                    self.flag_since[fkey] = w.now + 10 ** 6   # reported once
+        # forced states are displayed everywhere until the next event of the process
+        for rec in list(self.pending_forced):
+            if w.now < rec['check_at']:
+                continue
+            self.pending_forced.remove(rec)
+            if rec['overtaken']:
+                continue
+            sender = w.instances.get(rec['sender'])
+            if sender is None or not sender.alive or sender.inc != rec['inc']:
+                continue
+            for inst in w.live():
+                view = vws.get(inst.nick)
+                if view is None or view['instance_states'].get(sender.identifier) != 'RUNNING' or \
+                        vws[rec['sender']]['instance_states'].get(inst.identifier) != 'RUNNING' or \
+                        view['state'] not in ('DISTRIBUTION', 'OPERATION', 'CONCILIATION'):
+                    continue
+                try:
+                    info = peek(w, inst.nick, 'supvisors.get_process_info', rec['namespec'])[0]
+                    if rec['target']:
+                        inner = peek(w, inst.nick, 'supvisors.get_inner_process_info', rec['target'],
+                                     rec['namespec'])[0]
+                        if inner['event_time'] > rec['event_time']:
+                            # newer information from the targeted instance has already arrived there: the forced
+                            # state is legitimately dismissed (C11)
+                            self.count('forced_state_dismissed_by_newer_info')
+                            continue
+                except Fault:
+                    continue
+                self.count('forced_state_views_checked')
+                if info['statecode'] != rec['state']:
+                    self.violate(f"C10/forced-state-not-reported:{rec['state']}", f"{rec['sender']} gave up "
+                                 f"{rec['namespec']} at vt={rec['vt']} ({rec['reason']}) but {inst.nick} reports it "
+                                 f"{info['statename']} two ticks later, with no event of that process in between",
+                                 case=self.run.describe())
+
+    def lost_exit(self, inst):
+        """ Mechanism: the EXITED event of a wait_exit program was lost; its start job has no timeout. """
+        run = self.run
+        for namespec in run.procs:
+            if not run.prog_of(namespec)[1].get('wait_exit'):
+                continue
+            try:
+                info = peek(run.world, inst.nick, 'supvisors.get_process_info', namespec)[0]
+            except Fault:
+                continue
+            # still listed as running (the displayed state may be a forced one)
+            for identifier in info['identifiers']:
+                nick = run.world.by_identifier.get(identifier)
+                if self.tracker.truth.get((nick, namespec)) in (0, 100, 200):
+                    return ':wait-exit-event-lost'
+        return ''
+
+    def waiting_exit(self, inst):
+        """ Documented exception: a wait_exit program that is running and has not exited yet. """
+        seen = set()
+        for req in reversed(self.tracker.requests):
+            if req['sender'] != inst.nick or req['inc'] != inst.inc or req['namespec'] in seen:
+                continue
+            seen.add(req['namespec'])
+            if self.run.prog_of(req['namespec'])[1].get('wait_exit') and \
+                    self.tracker.truth.get((req['target_nick'], req['namespec'])) == 20:
+                return True
+        return False
+
+    def on_forced(self, inst, rec):
+        w = self.run.world
+        if not rec['reason']:
+            self.violate('C10/forced-without-reason', f"{inst.nick} forced {rec['namespec']} to {rec['state']} "
+                         f'without any reason')
+        self.count('given_up_jobs')
+        recent = self.last_truth.get(rec['namespec'], -1e9) > w.now - 2 * TICK or \
+            any(f['namespec'] == rec['namespec'] and f['t'] > w.now - 2 * TICK and f is not rec
+                for f in self.tracker.forced[-50:])
+        for other in self.pending_forced:
+            if other['namespec'] == rec['namespec']:
+                other['overtaken'] = True   # a newer forced state takes over
+        entry = {'sender': inst.nick, 'inc': inst.inc, 'namespec': rec['namespec'], 'state': rec['state'],
+                 'target': rec['target'], 'event_time': rec['event_time'],
+                 'reason': rec['reason'], 'vt': vt(w), 'check_at': w.now + 2 * TICK,
+                 # an event produced shortly before may still be in flight and will legitimately take over
+                 'overtaken': recent}
+        self.pending_forced.append(entry)
+
+    def on_event(self, ev):
+        if ev['k'] == 'truth':
+            self.last_truth[ev['namespec']] = ev['t']
+        if ev['k'] in ('truth', 'crash', 'boot'):
+            for rec in self.pending_forced:
+                if ev['k'] != 'truth' or ev['namespec'] == rec['namespec']:
+                    rec['overtaken'] = True
+        elif ev['k'] == 'hook' and ev['name'] == 'force_process_state':
+            pass
+
+    def finish(self, run):
+        # same bounded-progress clause, evaluated a last time at the end of the quiet period
+        self.on_tick(views(run.world))
         return self.violations
